@@ -17,6 +17,7 @@ What is TRANSLATED (holes of the templates, or whole small functions) and into w
   gnpy/core/elements.py
     Transceiver._calc_penalty       numpy.interp(value, up_to_boundary, penalty_value, left=.., right=..) -> g_calc_penalty
     Transceiver.update_snr          the increment of the accumulation loop and the four snr_sum(...) assignments -> g_contribution, g_update1
+    Roadm.set_roadm_paths           the roadm-osnr of an add / drop stage of the default model `add_drop_osnr + lin2db(2)`  -> g_add_drop_stage
   gnpy/core/utils.py
     snr_sum                         both statements, symbolically in 1/linear units            -> g_snr_sum
   gnpy/tools/json_io.py
@@ -26,9 +27,10 @@ What is MATCHED LITERALLY against a template (every statement must be the expect
     designed gains, propagation, update_snr / calc_penalties / `del roadm_osnr[-1]` order, bookkeeping of last_explored_mode,
     the three exits), the whole body of propagate(), the fixed-mode blocks of compute_path_with_disjunction (snr01nm_with_penalty,
     argmin, `if not hasattr(pathreq, 'blocking_reason')`), the bookkeeping of the selected mode (both branches, roll-off
-    included), update_snr's loop and `-lin2db`, the penalty normalisation block of json_io.Transceiver.__init__.
+    included), update_snr's loop and `-lin2db`, Transceiver.calc_penalties, the head of Roadm.set_roadm_paths (`if path_type in
+    ['add', 'drop']`), the penalty normalisation block of json_io.Transceiver.__init__.
 dB arithmetic: a dB value e stands for its 1/linear I(e) (what the model stores):  I(-lin2db(x)) = L(x),  I(a - lin2db(r)) = I(a) * L(r),
-L(db2lin(-e)) = I(e),  L(a + b) = L(a) + L(b),  L(a / b) = a / b on plain numbers.  Anything else raises Unsupported.
+I(a + lin2db(r)) = I(a) / L(r),  L(db2lin(-e)) = I(e),  L(a + b) = L(a) + L(b),  L(k) = k,  L(a / b) = a / b on plain numbers.  Anything else raises Unsupported.
 """
 import ast
 import os
@@ -264,6 +266,20 @@ self.osnr_ase_01nm = H_a3
 self.snr_01nm = H_a4
 """
 
+CALC_PENALTIES_TEMPLATE = """
+self.penalties = {impairment: self._calc_penalty(getattr(self, impairment), boundary_list)
+                  for impairment, boundary_list in penalties.items()}
+self.total_penalty = sum(list(self.penalties.values()), axis=0)
+"""
+
+ROADM_PATHS_TEMPLATE = """
+roadm_global_impairment = {'impairment': [{'roadm-pmd': self.params.pmd, 'roadm-pdl': self.params.pdl,
+                                           'frequency-range': {'lower-frequency': None, 'upper-frequency': None}}]}
+if path_type in ['add', 'drop']:
+    roadm_global_impairment['impairment'][0]['roadm-osnr'] = H_value
+impairment = RoadmImpairment(roadm_global_impairment)
+"""
+
 PENALTY_INIT_TEMPLATE = """
 for impairment in ('chromatic_dispersion', 'pmd', 'pdl'):
     imp_penalties = [p for p in penalties if impairment in p]
@@ -300,6 +316,8 @@ class TrDb:
             return self.lin(n.operand.args[0])
         if isinstance(n, ast.BinOp) and isinstance(n.op, ast.Sub) and self.call(n.right, 'lin2db'):
             return f'({self.inv(n.left)} * {self.lin(n.right.args[0])})'
+        if isinstance(n, ast.BinOp) and isinstance(n.op, ast.Add) and self.call(n.right, 'lin2db'):
+            return f'({self.inv(n.left)} / {self.lin(n.right.args[0])})'
         raise Unsupported(f'dB expression {t}')
 
     def lin(self, n):
@@ -307,6 +325,8 @@ class TrDb:
         t = src(n)
         if t in self.lin_vars:
             return self.lin_vars[t]
+        if isinstance(n, ast.Constant) and isinstance(n.value, int) and not isinstance(n.value, bool) and n.value > 0:
+            return str(n.value)
         if self.call(n, 'db2lin') and isinstance(n.args[0], ast.UnaryOp) and isinstance(n.args[0].op, ast.USub):
             return self.inv(n.args[0].operand)
         if isinstance(n, ast.BinOp) and isinstance(n.op, ast.Add):
@@ -415,6 +435,14 @@ def gen_elements(tree, utils_tree, out):
             raise Unsupported(f'_calc_penalty: value of {k.arg}')
     out.append('(* gnpy/core/elements.py: Transceiver._calc_penalty (an absent left / right keyword is numpy\'s default: None) *)')
     out.append(f"Definition g_calc_penalty (x : Q) (tab : table) : pen :=\n  interp_gen {kw.get('left', 'None')} {kw.get('right', 'None')} x tab.\n")
+    # calc_penalties: literal (the receiver's penalties are REPLACED by those of the tables given, then summed)
+    match_template(CALC_PENALTIES_TEMPLATE, stmts_of(find(tree, 'Transceiver.calc_penalties')), 'Transceiver.calc_penalties')
+    # Roadm.set_roadm_paths: what an add / drop stage is worth without a detailed profile
+    head = stmts_of(find(tree, 'Roadm.set_roadm_paths'))[:3]
+    rb = match_template(ROADM_PATHS_TEMPLATE, head, 'Roadm.set_roadm_paths (default add/drop OSNR)')
+    stage = TrDb({'self.params.add_drop_osnr': 'add_drop'}, {}, {}).inv(rb['H_value'])
+    out.append('(* gnpy/core/elements.py: Roadm.set_roadm_paths, noise (1/linear) of ONE add or drop stage of the default model *)')
+    out.append(f"Definition g_add_drop_stage (add_drop : Q) : Q := {stage}.\n")
     # snr_sum
     fn = find(utils_tree, 'snr_sum')
     if [a.arg for a in fn.args.args] != ['snr', 'bw', 'snr_added', 'bw_added']:
